@@ -94,7 +94,7 @@ def main():
     SEED[0] = a.seed
     mutants = []
     import re
-    for d in sorted(glob.glob(os.path.join(HERE, "seeded", "[CFPQRT][0-9][0-9]-*"))):
+    for d in sorted(glob.glob(os.path.join(HERE, "seeded", "[CFPQRTU][0-9][0-9]-*"))):
         name = os.path.basename(d)
         if name.startswith("C"):
             checks = [name[:3]] + EXTRA_CHECKS.get(name, [])
